@@ -33,10 +33,33 @@ def cellGo : Table.Cell → table.cell
   | .text s a ind => table.cell.textCell { Content := String.ofList s, Align := alignGo a, Indent := ind }
   | .num n => table.cell.numberCell { n := n }
 
-def rowGo (row : List Table.Cell) : table.Row := { cells := row.map cellGo }
+/-- the Go row of a model row in a table that is `width` columns wide: created by `AddRow` with the capacity `width`, which
+`append` keeps while the cells fit; once the row has outgrown it the capacity is unknown (`none`) -/
+def rowGoW (width : Nat) (row : List Table.Cell) : table.Row :=
+  { cells := row.map cellGo, cells_cap := if row.length ≤ width then some (width : Int) else none }
 
 def tableGo (t : Table.Table) : table.Table :=
-  { columns := t.columns.map (fun (g : Nat) => (g : Int)), rows := t.rows.map rowGo }
+  { columns := t.columns.map (fun (g : Nat) => (g : Int)), rows := t.rows.map (rowGoW t.width) }
+
+/-- a Go row stands for a model row: the same cells (the renderers do not read the capacity) -/
+def RowRel (R : table.Row) (row : List Table.Cell) : Prop := R.cells = row.map cellGo
+
+def RowsRel : List table.Row → List (List Table.Cell) → Prop
+  | [], [] => True
+  | R :: Rs, row :: rows => RowRel R row ∧ RowsRel Rs rows
+  | _, _ => False
+
+/-- a Go table stands for a model table: the same column groups, the same cells (any capacities) -/
+def TableRel (T : table.Table) (t : Table.Table) : Prop :=
+  T.columns = t.columns.map (fun (g : Nat) => (g : Int)) ∧ RowsRel T.rows t.rows
+
+theorem rowsRel_map (f : List Table.Cell → table.Row) (hf : ∀ row, RowRel (f row) row) :
+    ∀ rows : List (List Table.Cell), RowsRel (rows.map f) rows
+  | [] => trivial
+  | row :: rows => ⟨hf row, rowsRel_map f hf rows⟩
+
+theorem tableGo_rel (t : Table.Table) : TableRel (tableGo t) t :=
+  ⟨rfl, rowsRel_map (rowGoW t.width) (fun _ => rfl) t.rows⟩
 
 /-- the model's renderer of a Go renderer -/
 def rendOf (tr : table.TextRenderer) : Table.Renderer := ⟨tr.Thousands, tr.Round⟩
